@@ -134,6 +134,23 @@ def make_state_used(rng, kind, am, ph, warm, unitary_dict=None):
     return st, how
 
 
+def saturating_units(P, n):
+    """number of hidden/auxiliary units whose pre-activation exceeds softplus' switch-over (20) for some basis state:
+    only those carry the library's legitimate approximation error (<= 2.1e-9 each)."""
+    if P is None:
+        return 0
+    V = R.space(n)
+    k = int(np.sum(np.max(V @ P["W"].T + P["c"][None, :], axis=0) > 19.0))
+    if "U" in P:
+        k += int(np.sum(np.max(V @ P["U"].T + P["d"][None, :], axis=0) > 19.0))
+    return k
+
+
+def tau_sp(n, *nets):
+    """softplus budget for quantities derived from the effective energies of the given networks"""
+    return 3e-9 * sum(saturating_units(P, n) for P in nets)
+
+
 def all_nonzero(*dicts):
     for P in dicts:
         if P is None:
